@@ -18,6 +18,25 @@ MODEL_DRIVER = os.path.join(VERIF, 'ocaml', 'model_driver')
 SCRATCH_ROOT = os.environ.get('VERIF_SCRATCH', '/var/tmp')
 
 
+import contextlib
+import fcntl
+
+
+@contextlib.contextmanager
+def lock(name):
+    """checks of different properties may run side by side: the one that gets here first builds, the others wait and read its cache entry"""
+    os.makedirs(CACHE, exist_ok=True)
+    fh = open(os.path.join(CACHE, name + '.lock'), 'w')
+    try:
+        fcntl.flock(fh, fcntl.LOCK_EX)
+        yield
+    finally:
+        try:
+            fcntl.flock(fh, fcntl.LOCK_UN)
+        finally:
+            fh.close()
+
+
 class Infra(Exception):
     """the machinery itself could not run (exit code 2)"""
 
